@@ -509,12 +509,16 @@ def check(run):
     quick = run.tier == "quick"
     run.cov["rule"] = ("groups of related calls to dist2/dist2_grad (colvarvalue for scalar, 3-vector, unit vector, quaternion, vector; real colvar objects for "
                        "periodic distanceZ and distanceVec with/without forceNoPBC and cell): base, swapped, identical arguments, +/-h along a (tangent) direction, "
-                       "period/sign/lattice images; ~30% of periodic cases exactly on the half-period cut; plus wrap and interpolate calls, and histories on one periodic "
-                       "variable object (modifycvcs changes of period/wrapAround interleaved with colvar::wrap and colvar::dist2 calls). "
-                       "distinct = distinct base line; non-trivial = arguments differ and (for periodic/cell cases) the nearest image is not the identity image or the case is on the cut")
+                       "period/sign/lattice images; ~30% of periodic cases exactly on the half-period cut; component groups on real single-component variables of 17 kinds "
+                       "(distance, dihedral, spinAngle, eulerPhi/Psi/Theta, polarPhi/Theta, tilt, orientationAngle, distanceDir, orientation, cartesian, distancePairs, a periodic scripted "
+                       "variable, a coefficient-2 dihedral, a sum of two dihedrals; 6 wrapping centres): dist2/lgrad/rgrad base, swapped, identical, period image, wrapped arguments, sign flip, "
+                       "colvar::wrap (30% on the interval edge), +/-h in each argument; OPES kernel-merge groups (base + period image of either centre, 30% across the wrap boundary); "
+                       "wrap, interpolate (all types incl. quaternions: 20% opposite, 10% identical end points; 15% antipodal unit vectors), apply_constraints, inner/norm2, moving-restraint centres, "
+                       "and histories on one periodic variable object (modifycvcs changes of period/wrapAround interleaved with colvar::wrap, colvar::dist2 and wrap-then-dist2 calls). "
+                       "distinct = distinct base line; non-trivial = arguments differ")
     run.assumptions += ["theorems are about the R instance of the model; the tie runs the float instance and compares with relative tolerance 1e-9 (acos, sqrt) and exactly for dyadic cases",
-                        "colvar::dist2_rgrad is not used by any bias and is outside the property (gradient with respect to the first argument)",
-                        "gradient-is-derivative is proved for scalar, periodic scalar (off the cut), 3-vector; for unit vectors and quaternions it is checked by finite differences along tangent directions only (T2)"]
+                        "the model is of the code after the fix: commits of C18 (fix-C18: dist2_rgrad, wrap of spinAngle/eulerPhi/eulerPsi, periodic scripted distance, q/-q interpolation NaN)",
+                        "NaN is outside the real-number model: the 0/0 of interpolating q and -q at 1/2 is seen by the oracle and the float tie only"]
     st = V.standard_start(run, PROP, "coq/C18/Extract_C18.v", "props/C18/driver.ml", {"c18unit": ["props/C18/unit.cpp"]})
     if st is None:
         return
